@@ -174,8 +174,47 @@ pub fn mine(idx: u64) -> bool {
         }
     }
     ABANDONED.store(false, Ordering::SeqCst);
+    mem_watch(idx);
     case_begin(idx, Value::Null);
     true
+}
+
+static LAST_HWM_KB: AtomicU64 = AtomicU64::new(0);
+static LAST_CASE_SEEN: AtomicU64 = AtomicU64::new(u64::MAX);
+
+/// Peak resident memory of this process, attributed to the case that made it jump: recorded as
+/// an observed maximum (evidence) and, for jumps of more than 512 MB, as a note naming the case.
+fn mem_watch(next_idx: u64) {
+    let prev_case = LAST_CASE_SEEN.swap(next_idx, Ordering::SeqCst);
+    let hwm = std::fs::read_to_string("/proc/self/status")
+        .ok()
+        .and_then(|s| s.lines().find(|l| l.starts_with("VmHWM:")).and_then(|l| l.split_whitespace().nth(1).and_then(|x| x.parse::<u64>().ok())))
+        .unwrap_or(0);
+    let last = LAST_HWM_KB.swap(hwm, Ordering::SeqCst);
+    if hwm > last {
+        maxf("peak_resident_memory_mb", hwm as f64 / 1024.0);
+        if hwm - last > 512 * 1024 && prev_case != u64::MAX {
+            note(&format!("memory_jump_after_case_{}", prev_case), json!({"peak_mb_before": last / 1024, "peak_mb_after": hwm / 1024}));
+            eprintln!("memory: peak went from {} MB to {} MB during case {}", last / 1024, hwm / 1024, prev_case);
+        }
+    }
+}
+
+thread_local! {
+    static BUDGETS: RefCell<BTreeMap<&'static str, Option<u64>>> = RefCell::new(BTreeMap::new());
+}
+
+/// Sets a logical step budget of the library hooks and remembers it, so that a nested user
+/// (the read-only bundle run while an input is being built) can put it back afterwards.
+pub fn set_budget(name: &'static str, budget: Option<u64>) {
+    BUDGETS.with(|b| {
+        b.borrow_mut().insert(name, budget);
+    });
+    graphrs::verif_hooks::set_budget(name, budget);
+}
+
+pub fn current_budget(name: &'static str) -> Option<u64> {
+    BUDGETS.with(|b| b.borrow().get(name).copied().flatten())
 }
 
 static ABANDONED: AtomicBool = AtomicBool::new(false);
